@@ -188,8 +188,8 @@ Definition round3_available (feed2_billion : list Q) : list Q := map (fun x => x
 
 (* increase_biofuels_then_feed, one month (numpy elementwise); returns (biofuel, feed) *)
 Definition increase_month (biofuel feed increase max_biofuel max_feed total_crops : Q) : Q * Q :=
-  let pot_bio := Qmin' (biofuel + increase) max_biofuel - biofuel in
-  let pot_feed := Qmin' (feed + increase) max_feed - feed in
+  let pot_bio := Qmax0 (Qmin' (biofuel + increase) max_biofuel - biofuel) in
+  let pot_feed := Qmax0 (Qmin' (feed + increase) max_feed - feed) in
   let total_pot := pot_bio + pot_feed in
   let allowed := if Qle_bool (total_pot + biofuel + feed) total_crops then total_pot
                  else total_crops - biofuel - feed in
